@@ -18,7 +18,7 @@ pub fn prop() -> Prop {
         check,
         quick_runs: 16_000,
         both_profiles: false,
-        rule: "a run = a TCP script: traffic on a first connection, then a fault sequence of length 0-12 over {refuse (refused/timed out/unreachable), accept+close, accept+frames+close, accept+partial line (cut at any digit offset, often exactly 14) +reset/timeout/broken pipe, accept+junk bytes, EINTR}, then a healthy connection with fresh traffic; refusal pauses are simulated (5 s each) so some aircraft must survive the interruption and some must expire; non-trivial = at least one fault connection and one frame on the final healthy connection; distinct = distinct scripts",
+        rule: "a run = a TCP script: traffic on a first connection, then a fault sequence of length 0-12 over {refuse (refused/timed out/unreachable), accept+close, accept+frames+close, accept+partial line (cut at any digit offset, often exactly 14) +reset/timeout/broken pipe, accept+junk bytes, EINTR}, then a healthy connection with fresh traffic; refusal pauses are simulated (5 s each) so some aircraft must survive the interruption and some must expire; -f subsets incl. filters that let nothing of a connection through; non-trivial = at least one fault connection and one frame on the final healthy connection; distinct = distinct scripts",
         level_text: "seeded search over TCP fault sequences with simulated retry pauses; oracle: reader never returns or panics, healthy connection is read to its end and its frames are applied, retry pause after a refused attempt is 3..8 s, rows heard within delete_after survive every interruption unchanged, partial last lines that are not frames change nothing",
     }
 }
@@ -34,6 +34,15 @@ fn gen(rng: &mut Rng, _idx: u64, _tier: Tier) -> Case {
     if rng.chance(0.3) { args.push("--update=-1".into()); args.push("--count-df".into()); }
     if rng.chance(0.15) { args.push("--downlink-log=/dev/null".into()); }
     if rng.chance(0.1) { args.push(format!("--log-messages={}", rng.pick(&[17u32, 11, 20]))); }
+    if rng.chance(0.15) {
+        // a format filter: sometimes it lets nothing of a whole connection (or of the whole feed) through
+        let nine = [0u32, 4, 5, 11, 16, 17, 18, 20, 21];
+        match rng.below(4) {
+            0 => args.push(format!("--filter={}", rng.pick(&[1u32, 19, 24, 31]))),
+            1 => args.push(format!("--filter={}", rng.pick(&nine))),
+            _ => { let mut any = false; for k in nine { if rng.chance(0.5) { args.push(format!("--filter={}", k)); any = true; } } if !any { args.push("--filter=17".into()); } }
+        }
+    }
     gen::add_neutral_options(rng, &mut args, true, true);
     let kinds = gen::COMMON_KINDS;
     let mut conns: Vec<Conn> = vec![];
@@ -174,6 +183,8 @@ fn check(case: &Case, st: &mut Stats) -> Vec<Violation> {
     let n_conn = case.script.conns.len();
     let mut healthy_frames = 0;
     let mut fault_conns = 0;
+    let filter = case.script.filter();
+    let passes = |df: u32| filter.as_ref().map(|f| f.contains(&df)).unwrap_or(true);
     for (i, s) in h.steps.iter().enumerate() {
         let before = if i == 0 { &empty } else { &h.steps[i - 1].after };
         if s.conn != cur_conn {
@@ -185,7 +196,9 @@ fn check(case: &Case, st: &mut Stats) -> Vec<Violation> {
         let mut any_unjudged = false;
         for l in &s.lines {
             let c = refm::classify(l);
-            if c.accepted && c.judged {
+            if c.accepted && !passes(c.df) {
+                st.probe("filtered_frame_seen"); // excluded by -f: must change nothing (containment below)
+            } else if c.accepted && c.judged {
                 let a = c.addr.unwrap();
                 model.accept(a, s.t_us);
                 touched.push(a);
